@@ -72,92 +72,100 @@ func parseGraph(printed []string) (*graph, error) {
 	return g, nil
 }
 
+func (e *Edge) gFrom() string  { return e.from }
+func (e *Edge) gTo() string    { return e.to }
+func (e *Edge) gCovered() bool { return e.covered }
+func (e *Edge) gCover()        { e.covered = true }
+
 // tours computes paths from the initial states that together traverse every
-// edge: follow an uncovered edge when the current node has one, otherwise
-// walk the shortest way to the nearest node that has one.
+// edge (cover.go).
 func (g *graph) tours(rnd *rand.Rand, maxLen int) ([][]*Edge, error) {
+	return coverTours(g.inits, g.out, len(g.edges), rnd, maxLen)
+}
+
+// step returns the edge a request takes from a node.
+func (g *graph) step(node string, r AReq) *Edge {
+	for _, e := range g.out[node] {
+		if e.A == r {
+			return e
+		}
+	}
+	return nil
+}
+
+func hashOnly(h string) AReq { return AReq{Text: "", Ext: "pq", Ver: "1", Hash: h, Mal: none} }
+func register(t string) AReq { return AReq{Text: t, Ext: "pq", Ver: "1", Hash: "h:" + t, Mal: none} }
+
+// withSweep appends, to a path, one hash-only request for the hash of every
+// text of the alphabet: the only way to see what the real cache holds at the
+// end of the tour through its public API (expected outcomes: the graph's).
+func (g *graph) withSweep(path []*Edge, texts []string) []*Edge {
+	cur := path[len(path)-1].to
+	for _, t := range texts {
+		e := g.step(cur, hashOnly("h:"+t))
+		if e == nil {
+			break
+		}
+		path = append(path, e)
+		cur = e.to
+	}
+	return path
+}
+
+// evictionScenarios derives, for EVERY edge on which a registration evicts an
+// entry of a full LRU, the history
+//
+//	shortest way to the full state, the evicting registration,
+//	hash-only(evicted hash)            -> PersistedQueryNotFound
+//	hash-only(hash just registered)    -> its own text
+//	register(evicted text) again       (re-registration of the evicted hash; evicts in turn)
+//	hash-only(evicted hash)            -> its own text
+//	hash-only(hash registered before)  -> its own text or PersistedQueryNotFound
+//	hash-only of every hash            (sweep)
+//
+// with the outcomes the graph prescribes (all of them are edges of the graph).
+func (g *graph) evictionScenarios(texts []string) [][]*Edge {
+	acc := accessPaths(g.inits, g.out)
 	var ks []string
 	for k := range g.out {
 		ks = append(ks, k)
 	}
 	sort.Strings(ks)
+	var out [][]*Edge
 	for _, k := range ks {
-		es := g.out[k]
-		rnd.Shuffle(len(es), func(i, j int) { es[i], es[j] = es[j], es[i] })
-	}
-	left := len(g.edges)
-	var paths [][]*Edge
-	for _, init := range g.inits {
-		for {
-			var path []*Edge
-			cur := init
-			for len(path) < maxLen {
-				var next *Edge
-				for _, e := range g.out[cur] {
-					if !e.covered {
-						next = e
-						break
-					}
+		es := append([]*Edge{}, g.out[k]...)
+		sort.SliceStable(es, func(i, j int) bool { return mustJSON(es[i].A) < mustJSON(es[j].A) })
+		for _, e := range es {
+			if len(e.O.Ops) != 1 || e.O.Ops[0].Op != "add" {
+				continue
+			}
+			in := map[string]bool{}
+			for _, x := range e.T.Ents {
+				in[x[0]] = true
+			}
+			victim := ""
+			for _, x := range e.S.Ents {
+				if !in[x[0]] {
+					victim = x[0]
 				}
-				if next != nil {
-					next.covered = true
-					left--
-					path = append(path, next)
-					cur = next.to
-					continue
-				}
-				way := g.nearestUncovered(cur)
-				if way == nil {
+			}
+			if victim == "" {
+				continue
+			}
+			path := append(append([]*Edge{}, acc[e.from]...), e)
+			cur := e.to
+			for _, r := range []AReq{hashOnly(victim), hashOnly(e.A.Hash), register(strings.TrimPrefix(victim, "h:")), hashOnly(victim), hashOnly(e.A.Hash)} {
+				nx := g.step(cur, r)
+				if nx == nil {
 					break
 				}
-				if len(path) > 0 && len(path)+len(way)+1 > maxLen {
-					break
-				}
-				path = append(path, way...)
-				cur = way[len(way)-1].to
+				path = append(path, nx)
+				cur = nx.to
 			}
-			if len(path) == 0 {
-				break
-			}
-			paths = append(paths, path)
+			out = append(out, g.withSweep(path, texts))
 		}
 	}
-	if left != 0 {
-		return nil, fmt.Errorf("%d edges are not reachable from an initial state", left)
-	}
-	return paths, nil
-}
-
-func (g *graph) nearestUncovered(from string) []*Edge {
-	type item struct {
-		n   string
-		via *Edge
-		par *item
-	}
-	seenN := map[string]bool{from: true}
-	q := []*item{{n: from}}
-	for len(q) > 0 {
-		it := q[0]
-		q = q[1:]
-		if it.n != from {
-			for _, e := range g.out[it.n] {
-				if !e.covered {
-					var way []*Edge
-					for x := it; x.via != nil; x = x.par {
-						way = append([]*Edge{x.via}, way...)
-					}
-					return way
-				}
-			}
-		}
-		for _, e := range g.out[it.n] {
-			if !seenN[e.to] {
-				seenN[e.to] = true
-				q = append(q, &item{n: e.to, via: e, par: it})
-			}
-		}
-	}
-	return nil
+	return out
 }
 
 // replayStep is one request of a history / replay artefact.
@@ -236,9 +244,6 @@ func (rep *reporter) replayPath(id string, path []*Edge, texts, valid, wrong []s
 			return nil, err
 		}
 		got := cc.abstract(ro.Kind, ro.Cap, rp, o, pre, snap)
-		if got.Chg != !sameEnts(pre.Ents, snap.Ents) {
-			return nil, fmt.Errorf("decorator's change flag disagrees with the snapshots at request %d of %s", i+1, id)
-		}
 		st := replayStep{Req: e.A, Wire: w, Got: &got}
 		rep.c.AddEvals(1)
 		if !drifted {
@@ -264,6 +269,7 @@ func (rep *reporter) replayPath(id string, path []*Edge, texts, valid, wrong []s
 		h.Steps = append(h.Steps, st)
 	}
 	h.Drifted = drifted
+	h.EvSeen, h.ReAdded = int(rg.cache.evictionsSeen), int(rg.cache.reAdded)
 	return h, nil
 }
 
@@ -286,6 +292,9 @@ func runReplayFile(file string) {
 	}
 	if err := json.Unmarshal(b, &env); err != nil {
 		vlib.Infra("replay file: %v", err)
+	}
+	if strings.HasPrefix(env.Scenario.Mechanism, "L") {
+		runLReplay(b) // a scenario of the LRU phase (lru.go)
 	}
 	doc := env.Scenario
 	cc := &conc{Text: doc.Texts, Hash: doc.Hashes, Field: map[string]string{}, rText: map[string]string{}, rHash: map[string]string{}}
